@@ -169,8 +169,8 @@ def rule_alphabet(ctx):
     pm = models.parser_model(facts)
     rl = faults.roles(facts, pm)
     summ = boolsum.Summarizer(facts)
-    c = boolsum.strpred_canon(summ.summary("is_valid_package_type"), facts)
-    ctx.ob("ALPHABET", "valid_type = [0-9A-Za-z.+-]+", c["nonempty"] and c["all"] == VALID_TYPE_SET and not c["other"], fn="is_valid_package_type", site=fn_site(facts, "is_valid_package_type"), detail="all={%s}" % boolsum.set_to_ranges(c["all"] or 0))
+    from .common import type_alphabet_obligation
+    type_alphabet_obligation(ctx, facts, "ALPHABET")
     kc = rl.get("keycheck")
     keypred = None
     for row in models.rejections(facts, kc):
